@@ -39,7 +39,14 @@ class _Slots:
     def __enter__(self):
         import fcntl
         os.makedirs(SLOT_DIR, exist_ok=True)
-        while True:
+        self.big = None
+        if self.want > 1:
+            # one multi-slot request at a time machine-wide; it then acquires-and-holds, so it cannot starve
+            # behind single-slot requests and cannot deadlock with another multi-slot request
+            self.want = min(self.want, max(2, SLOTS * 3 // 5))
+            self.big = open(os.path.join(SLOT_DIR, "big"), "w")
+            fcntl.flock(self.big, fcntl.LOCK_EX)
+        while len(self.held) < self.want:
             for i in range(SLOTS):
                 if len(self.held) >= self.want:
                     break
@@ -49,18 +56,16 @@ class _Slots:
                     self.held.append(f)
                 except OSError:
                     f.close()
-            if len(self.held) >= self.want:
-                return self
-            # could not get all: release and retry (avoids deadlock between big requests)
-            for f in self.held:
-                f.close()
-            self.held = []
-            time.sleep(0.2 + random.random() * 0.5)
+            if len(self.held) < self.want:
+                time.sleep(0.2 + random.random() * 0.3)
+        return self
 
     def __exit__(self, *a):
         for f in self.held:
             f.close()
         self.held = []
+        if getattr(self, "big", None):
+            self.big.close()
 
 
 class Infra(Exception):
